@@ -9,6 +9,7 @@
                         select cases were ready)          9 i o  the user function of instance i returns o
              10 i  bookkeeping section of instance i      11 d  advance the clock     12 k  k-th parked timer callback runs
              13 rinr  new WaitExited caller   14 a  its next section   15 a  cancel its context   16 a code  its error channel fires
+             18 c  the owner of root context c cancels it (the container is not told)
    Outcomes: 0 nil, 1 context.Canceled, e+2 error e.
    Observation after every event:
      rets  ninst (code arg root canc)*  nchan status*  ndelta outcome*  nwait wcode*  nparked
@@ -125,6 +126,7 @@ Definition hstep (h : hst) (e : list N) : option (hst * list N) :=
   | [17; i] =>
     if existsb (Nat.eqb (n2n i)) (hexit h) then finx s (hch h) [] (filter (fun k => negb (Nat.eqb k (n2n i))) (hexit h)) else None
   | [11; d] => fin (advance s d) (hch h) []
+  | [18; c] => fin (cancel_root s (n2n c)) (hch h) []
   | [12; k] =>
     match nth_error (fired_sorted (timers s)) (n2n k) with
     | Some t => fin (timer_cb repaired s t) (hch h) []
@@ -220,6 +222,7 @@ Record mst := {
                                          reference-machine clauses 14/1-4 are evaluated in the other configurations only *)
   m_pend : list (nat * bool * bool);  (* instances parked after their bookkeeping section: (instance, reported already, had to be reported) *)
   m_wcanc : list bool;                (* per waiter: cancelled *)
+  m_dead : list N;                    (* root contexts cancelled by their owner *)
 }.
 
 Definition minit (cfg : list N) : option mst :=
@@ -227,7 +230,7 @@ Definition minit (cfg : list N) : option mst :=
   | variant :: cmp :: ncbs :: hasbo :: exitg :: script =>
     Some {| m_sv := nz variant; m_ncb := n2n ncbs; m_script := if nz hasbo then Some script else None; m_idx := 0;
             m_ctx := 0; m_hasr := false; m_sfn := 0; m_st := 0; m_clock := 0; m_ninst := 0; m_out := []; m_chans := [];
-            m_succ := false; m_err := false; m_curexit := None; m_pending := None; m_quiet := false; m_cur := None; m_exitg := nz exitg; m_pend := []; m_wcanc := [] |}
+            m_succ := false; m_err := false; m_curexit := None; m_pending := None; m_quiet := false; m_cur := None; m_exitg := nz exitg; m_pend := []; m_wcanc := []; m_dead := [] |}
   | _ => None
   end.
 
@@ -269,7 +272,13 @@ Definition mon1 (m : mst) (e : list N) (p : pobs) : mst * list (nat * nat) :=
   let spawned := Nat.ltb (m_ninst m) n in
   let newest := (n - 1)%nat in
   (* ---- bookkeeping of what was asked for ---- *)
-  let ctx' := match e with [1; c; _] => c | _ => m_ctx m end in
+  let epoch := epoch_event e p in
+  (* a root context cancelled by its owner counts as no context from the next entry point on that looks at it:
+     SetRoutine / SetStateRoutine / a SetState or SwapValue that changes the state / RestartRoutine / a WaitExited section *)
+  let is_dead := existsb (N.eqb (m_ctx m)) (m_dead m) in
+  let forgets := (epoch || match e with [3] => true | [14; _] => true | _ => false end) && is_dead in
+  let ctx0 := if forgets then 0 else m_ctx m in
+  let ctx' := match e with [1; c; _] => c | _ => ctx0 end in
   let st' := match e with
              | [4; v] => match po_rets p with [_; ch; _; _] => if nz ch then v else m_st m | _ => m_st m end
              | [5; _] => match po_rets p with [nx; _; ch; _; _] => if nz ch then nx else m_st m | _ => m_st m end
@@ -278,7 +287,6 @@ Definition mon1 (m : mst) (e : list N) (p : pobs) : mst * list (nat * nat) :=
   let sfn' := match e with [6; f] => f | _ => m_sfn m end in
   let hasr' := if m_sv m then nz sfn' && nz st'
                else match e with [2; f] => nz f | _ => m_hasr m end in
-  let epoch := epoch_event e p in
   let clock' := match e with [11; d] => m_clock m + d | _ => m_clock m end in
   let out' := (m_out m ++ repeat 1 (n - length (m_out m)))%list in
   let out'' := match e with [9; i; o] => set_nth out' (n2n i) o | _ => out' end in
@@ -333,7 +341,7 @@ Definition mon1 (m : mst) (e : list N) (p : pobs) : mst * list (nat * nat) :=
                | [17; _] => filter (fun t => negb (Nat.eqb (fst (fst t)) book_i)) (m_pend m)
                | _ => m_pend m
                end in
-  let clear_ctx := match e with [1; c; _] => N.eqb c 0 | _ => false end in
+  let clear_ctx := match e with [1; c; _] => N.eqb c 0 && nz (m_ctx m) | _ => false end in
   let cur' := if spawned then Some newest else if epoch || clear_ctx then None else m_cur m in
   let recorded := is_book && negb nodelta
                   && match m_cur m with Some c => Nat.eqb c book_i | None => false end in
@@ -347,11 +355,14 @@ Definition mon1 (m : mst) (e : list N) (p : pobs) : mst * list (nat * nat) :=
   let '(idx', pend_new) :=
     match m_script m with
     | Some l => if rec_ok then (0%nat, None)
-                else if rec_err then (S (m_idx m), match nth_error l (m_idx m) with Some d => Some (clock' + d) | None => None end)
+                else if rec_err then (S (m_idx m), match nth_error l (m_idx m) with
+                                                   | Some d => if nz ctx' then Some (clock' + d) else None   (* no context: no retry is due *)
+                                                   | None => None
+                                                   end)
                 else ((if rep_ok then 0%nat else m_idx m), m_pending m)
     | None => (m_idx m, None)
     end in
-  let clears := spawned || epoch || is_restart || is_ctx_restart || (match e with [1; c; _] => N.eqb c 0 | _ => false end) in
+  let clears := spawned || epoch || is_restart || is_ctx_restart || (match e with [1; c; _] => N.eqb c 0 | _ => false end) || forgets in
   let pending' := if rec_err then pend_new else if clears then None else pend_new in
   let f14c := fails 14 3 (match pending' with
                           | Some d => negb (N.leb d clock') || negb (N.eqb (po_parked p) 0)
@@ -366,10 +377,10 @@ Definition mon1 (m : mst) (e : list N) (p : pobs) : mst * list (nat * nat) :=
       | Some wc =>
         if N.leb 3 wc then
           let o := wc - 3 in
-          let expect := if nz (m_ctx m) && m_hasr m then m_curexit m else None in
+          let expect := if nz ctx0 && m_hasr m then m_curexit m else None in
           fails 14 4 (match expect with
                       | Some x => N.eqb o x
-                      | None => (N.eqb o 1 && nth (n2n a) (m_wcanc m) false) || (N.eqb o 0 && negb (nz (m_ctx m) && m_hasr m))
+                      | None => (N.eqb o 1 && nth (n2n a) (m_wcanc m) false) || (N.eqb o 0 && negb (nz ctx0 && m_hasr m))
                       end)
         else []
       | None => [(14, 4)]%nat
@@ -385,7 +396,8 @@ Definition mon1 (m : mst) (e : list N) (p : pobs) : mst * list (nat * nat) :=
       m_ctx := ctx'; m_hasr := hasr'; m_sfn := sfn'; m_st := st'; m_clock := clock';
       m_ninst := n; m_out := out''; m_chans := chans';
       m_succ := if recorded then rec_ok else succ'; m_err := if recorded then rec_err else err';
-      m_curexit := curexit'; m_pending := pending'; m_quiet := quiet'; m_cur := cur'; m_exitg := m_exitg m; m_pend := pend'; m_wcanc := wcanc' |},
+      m_curexit := curexit'; m_pending := pending'; m_quiet := quiet'; m_cur := cur'; m_exitg := m_exitg m; m_pend := pend'; m_wcanc := wcanc';
+      m_dead := match e with [18; c] => c :: m_dead m | _ => m_dead m end |},
    f4 ++ f5 ++ (if m_exitg m then [] else f14a) ++ f14e ++ (if m_exitg m then [] else f14c ++ f14w)).
 
 Definition mon (m : option mst) (e o : list N) : option mst * list (nat * nat) :=
